@@ -1,11 +1,28 @@
 #!/bin/bash
-# Builds every check binary once (warms the Go build cache). Offline.
+# Builds every check binary once (warms the Go build cache, including the -race
+# variants). Offline.
 set -e
 cd "$(dirname "$0")/harness"
 export GOFLAGS=-mod=mod GOPROXY=off
 unset GOSUMDB GOTOOLCHAIN
 mkdir -p ../bin ../evidence
-for pkg in $(python3 -c "import json;print(' '.join(sorted({c['pkg'] for c in json.load(open('../checks.json')).values()})))"); do
-  go test -c -vet=off -tags verif -o ../bin/$(echo $pkg | tr / _).test ./$pkg
-done
+python3 - <<'PY' > ../bin/.setup_pkgs
+import json
+c = json.load(open('../checks.json'))
+seen = set()
+for v in c.values():
+    k = (v['pkg'], v.get('tags', 'verif'), bool(v.get('race')))
+    if k not in seen:
+        seen.add(k)
+        print(v['pkg'], v.get('tags', 'verif'), '1' if v.get('race') else '0')
+PY
+while read pkg tags race; do
+  out=../bin/$(echo $pkg | tr / _)
+  if [ "$race" = "1" ]; then
+    go test -c -vet=off -race -tags "$tags" -o ${out}_race.test ./$pkg
+  else
+    go test -c -vet=off -tags "$tags" -o ${out}.test ./$pkg
+  fi
+done < ../bin/.setup_pkgs
+rm -f ../bin/.setup_pkgs
 echo setup ok
